@@ -5,9 +5,15 @@ import GateModel.C09.Spec
 C09 driver.  Case lines:
   `sid <secretHex> <pubHex>\tid=<string>`   Authenticator.GenerateServerID(secret) with DER public key pub
   `tc <hex>\t<hex>`                         twosComplement(p) (through the verif hook)
+  `csid <secretHex> <pubHex>\tid=<string>`  a result returned to one of 16 goroutines calling GenerateServerID
+                                            concurrently, each on its own inputs (sampled rounds, and every
+                                            result that differed from the sequential one)
+  `csum <workers> <rounds>\tmismatches=<n>` number of concurrent results that differed from the sequential ones
 Model output: the same shape computed by the model (`serverID`, `twosComplement`).
 Spec verdict on the implementation's output: `sid` must equal Java's
-`new BigInteger(sha1(secret‖pub)).toString(16)`; `tc` must be `2^(8n) − x mod 2^(8n)` with the same length.
+`new BigInteger(sha1(secret‖pub)).toString(16)`; `tc` must be `2^(8n) − x mod 2^(8n)` with the same length;
+a concurrent result must be the Java digest of ITS OWN input (`serverID` is a function of secret and key only:
+no call may observe another call's digest) — `viol:concurrent-digest-mismatch` otherwise.
 -/
 namespace Gate.C09
 open Gate Gate.Hash
@@ -20,6 +26,14 @@ def step (c : Case) : String × String :=
       let want := "id=" ++ javaHex (signedOfBytesBE (sha1 (secret ++ pub)))
       ("id=" ++ serverID secret pub, if c.impl = want then "ok" else "viol:serverid-mismatch")
     | _, _ => ("bad-op", "-")
+  | "csid", [s, p] =>
+    match parseHex s, parseHex p with
+    | some secret, some pub =>
+      let want := "id=" ++ javaHex (signedOfBytesBE (sha1 (secret ++ pub)))
+      ("id=" ++ serverID secret pub, if c.impl = want then "ok" else "viol:concurrent-digest-mismatch")
+    | _, _ => ("bad-op", "-")
+  | "csum", [_, _] =>
+    ("mismatches=0", if c.impl = "mismatches=0" then "ok" else "viol:concurrent-digest-mismatch")
   | "tc", [h] =>
     match parseHex h with
     | some d =>
